@@ -18,6 +18,31 @@ struct bounded_buf : public std::streambuf {
 	std::streamsize xsputn(char const *s,std::streamsize n){ size_t k=std::min<size_t>(n,room-data.size()); data.append(s,k); return k; }
 	int overflow(int c){ if(c==EOF) return 0; if(data.size()>=room) return EOF; data+=char(c); return c; }
 };
+// sink whose failures need not be permanent.  One "call" = one xsputn or one overflow (sputc without put area); calls are
+// numbered from 0, refused ones included.  spec:  B<room>  accepts room bytes in total, writes prefixes (= bounded_buf);
+// A<budget> all-or-nothing per call: a call that does not fit into the remaining budget is refused entirely, later smaller
+// calls are accepted;  K<k> call number k is refused once, everything else accepted;  T every odd-numbered call is refused;
+// P<k>.<m> call number k takes only its first m bytes (once), everything else accepted
+struct spec_buf : public std::streambuf {
+	std::string data; char mode; size_t a,b,calls;
+	spec_buf(std::string const &spec) : mode(spec.empty()?'B':spec[0]), a(0), b(0), calls(0) {
+		a=strtoul(spec.c_str()+(spec.empty()?0:1),0,10);
+		size_t dot=spec.find('.'); if(dot!=std::string::npos) b=strtoul(spec.c_str()+dot+1,0,10);
+	}
+	size_t accept(size_t n) {
+		size_t idx=calls++;
+		switch(mode) {
+		case 'B': return std::min<size_t>(n, a>data.size() ? a-data.size() : 0);
+		case 'A': return data.size()+n<=a ? n : 0;
+		case 'K': return idx==a ? 0 : n;
+		case 'T': return (idx&1) ? 0 : n;
+		case 'P': return idx==a ? std::min(n,b) : n;
+		}
+		return n;
+	}
+	std::streamsize xsputn(char const *s,std::streamsize n){ size_t k=accept(n); data.append(s,k); return k; }
+	int overflow(int c){ if(c==EOF) return 0; if(accept(1)==0) return EOF; data+=char(c); return (unsigned char)(c); }
+};
 // sink with a 1-byte put area (forces overflow() on every character)
 struct tiny_buf : public std::streambuf {
 	std::string data; char b[1];
@@ -191,6 +216,32 @@ int main()
 			else { o<<cppcms::filters::base64_urlencode(p); o2<<cppcms::filters::base64_urlencode(p); rel=o2.fail()?-1:0; }
 			if(b.data!=b2.data) out<<"pcsf PATHS-DIFFER "<<hex(b.data)<<" "<<hex(b2.data);
 			else out<<"pcsf "<<hex(b.data)<<" st="<<(o.fail()?0:1)<<" rel="<<(rel==0?1:0);
+		}
+		else if(v.size()==3 && v[0]=="escg") {
+			// escape into a sink with non-permanent failures: stream buffer overload (data, return value) and ostream overload (data, state)
+			std::string s=unhex(v[2]);
+			spec_buf b1(v[1]); int rc=cppcms::util::escape(s.data(),s.data()+s.size(),b1);
+			spec_buf b2(v[1]); std::ostream o2(&b2); cppcms::util::escape(s.data(),s.data()+s.size(),o2);
+			if(b1.data!=b2.data || (rc==0)!=(!o2.fail())) out<<"escg PATHS-DIFFER "<<hex(b1.data)<<" "<<rc<<" "<<hex(b2.data)<<" "<<o2.fail();
+			else out<<"escg "<<hex(b1.data)<<" "<<(rc==0?1:0);
+		}
+		else if(v.size()==3 && v[0]=="uencg") {
+			std::string s=unhex(v[2]);
+			spec_buf b1(v[1]); int rc=cppcms::util::urlencode(s.data(),s.data()+s.size(),b1);
+			spec_buf b2(v[1]); std::ostream o2(&b2); cppcms::util::urlencode(s.data(),s.data()+s.size(),o2);
+			if(b1.data!=b2.data || (rc==0)!=(!o2.fail())) out<<"uencg PATHS-DIFFER "<<hex(b1.data)<<" "<<rc<<" "<<hex(b2.data)<<" "<<o2.fail();
+			else out<<"uencg "<<hex(b1.data)<<" "<<(rc==0?1:0);
+		}
+		else if(v.size()==5 && v[0]=="pcsg") {
+			// the template filters, value in pieces, into such a sink
+			std::string s=unhex(v[4]); pieces p=cut(s,v[3]);
+			spec_buf b(v[2]); std::ostream o(&b);
+			spec_buf b2(v[2]); std::ostream o2(&b2); int rel=0;
+			if(v[1]=="esc") { o<<cppcms::filters::escape(p); own_escape_buf fb; fb.steal(o2); o2<<p; rel=fb.release(); }
+			else if(v[1]=="uenc") { o<<cppcms::filters::urlencode(p); own_urlencode_buf fb; fb.steal(o2); o2<<p; rel=fb.release(); }
+			else { o<<cppcms::filters::base64_urlencode(p); o2<<cppcms::filters::base64_urlencode(p); rel=o2.fail()?-1:0; }
+			if(b.data!=b2.data) out<<"pcsg PATHS-DIFFER "<<hex(b.data)<<" "<<hex(b2.data);
+			else out<<"pcsg "<<hex(b.data)<<" st="<<(o.fail()?0:1)<<" rel="<<(rel==0?1:0);
 		}
 		else if(v.size()==3 && v[0]=="pcsb") {
 			// a filter applied to a stream that has already failed (plain writes to such a stream are dropped)
